@@ -18,6 +18,7 @@ pub fn spec() -> PropSpec {
         assumptions: &["a sweep is only required after 12 accepted frames within one reader run (the sweep counter lives in the reader); segments with fewer accepted frames leave expiry unconstrained", "schedules whose real run time exceeds 0.9 s are discarded (whole-second thresholds would be ambiguous)"],
         workers: 16,
         also_nochk: false,
+        fuzz_target: None,
         quick_budget_s: 900,
         thorough_budget_s: 3600,
         min_nontrivial_quick: 3_000,
